@@ -203,6 +203,7 @@ def coq_make(targets, timeout=900):
     with Lock("coq"):
         mk = os.path.join(COQ, "Makefile")
         proj = os.path.join(COQ, "_CoqProject")
+        subprocess.run([sys.executable, os.path.join(ROOT, "tools", "mkcoqproject.py")], capture_output=True)
         if (not os.path.exists(mk)) or os.path.getmtime(mk) < os.path.getmtime(proj):
             subprocess.run(["coq_makefile", "-f", "_CoqProject", "-o", "Makefile"], cwd=COQ, capture_output=True)
         r = subprocess.run(["timeout", str(timeout), "make", "-j%d" % JOBS] + list(targets), cwd=COQ,
@@ -320,6 +321,16 @@ class Ctx:
         if variant == "default":
             self.libdir = d
         return d
+
+    def regen(self, script, timeout=300):
+        """Run a translator tools/<script> (regenerates coq/Gen/*.v from the current tree). Fail-closed."""
+        os.makedirs(os.path.join(COQ, "Gen"), exist_ok=True)
+        r = subprocess.run([PY, os.path.join(ROOT, "tools", script)], cwd=ROOT, capture_output=True, text=True,
+                           timeout=timeout, env=dict(os.environ, VERIF_REPO=REPO))
+        self.obligation("regenerate:" + script, r.returncode == 0, (r.stdout + r.stderr)[-2000:])
+        if r.returncode == 0:
+            self.trusted.append("translator tools/%s (fail-closed; output re-checked by Coq on every run)" % script)
+        return r.returncode == 0
 
     # --- proof obligations
     def obligation(self, name, ok, detail=""):
